@@ -147,7 +147,31 @@ def entry_fields_rules(facts, rep, rule="C01-ENTRYFIELDS"):
     args = [x for x in _walk(v) if x[0] == "arg"]
     good = len(args) >= 1 and all(a[1] == 2 for a in args) and not any(x[0] == "call" and not re.search(r"convert::(Into|From)|::into$|::from$|to_owned|to_string|String::from", x[1]) for x in _walk(v))
     ok &= rep.check(good, rule, "field:file_name", where(st, s["span"]), "file_name = name.into()", "start_entry records file_name = %s" % show(v)[:100])
-    rep.floor(rule, 9)
+    # the record joins the archive only once its local header is in the sink: on every path the push onto `files` comes after the
+    # header writer returned Ok (a failed header write must not leave a phantom entry that finish() then lists)
+    from engine.paths import paths as _paths, PathExplosion
+    try:
+        ps = _paths(st, max_paths=30000)
+    except PathExplosion:
+        ps = None
+    if ps is None:
+        hw = [b for b, t in st.calls() if (t.get("callee") or "").endswith("write_local_file_header")]
+        pu = [b for b, t in st.calls() if re.search(r"Vec::<T(, A)?>::push$", t.get("callee") or "")]
+        good = bool(hw) and bool(pu) and all(st.dominates(hw[0], b) for b in pu)
+    else:
+        good, seen = True, 0
+        for p_ in ps:
+            names = [e_[1] for e_ in p_["effects"]]
+            pushes = [i for i, n in enumerate(names) if re.search(r"Vec::<T(, A)?>::push$", n)]
+            if not pushes:
+                continue
+            seen += 1
+            hdr = [i for i, n in enumerate(names) if n.endswith("write_local_file_header")]
+            good = good and bool(hdr) and hdr[0] < pushes[0]
+        good = good and seen >= 1
+    ok &= rep.check(good, rule, "record-pushed-after-header-written", where(st, s["span"]), "files.push(record) only after write_local_file_header(..)? succeeded",
+                    "start_entry adds the record to the archive before (or without) its local header having been written")
+    rep.floor(rule, 10)
     return ok
 
 
